@@ -569,7 +569,8 @@ class Angle(object):
         """
 
         if self._deg < 0:
-            self._deg = 360.0 - abs(self._deg)
+            # Tiny negative values would round to exactly 360.0
+            self._deg = (360.0 - abs(self._deg)) % 360.0
         return self
 
     def __eq__(self, b):
